@@ -4,6 +4,7 @@
    positive whole seconds (FactsTimed.cli_positive_seconds), the theorems cover every Z. *)
 From Coq Require Import List NArith ZArith Bool Lia.
 From AnyTLS Require Import Generated Pool Heartbeat HeartbeatProofs HeartbeatSimProofs TimedLegacy HeartbeatStall HeartbeatStallProofs.
+From AnyTLS Require Conc ConcInv ConcDeath ConcStall.
 Import ListNotations.
 Open Scope Z_scope.
 
@@ -94,6 +95,20 @@ Theorem C14_known_F4_stalled_write_never_detected : forall T st0 s more t,
   hb_closed (w_hb (hbw_expire T (hbw_run T st0 ((HTick s, true) :: more)) t)) = None.
 Proof. exact stalled_write_never_detected. Qed.
 Print Assumptions C14_known_F4_stalled_write_never_detected.
+
+(* ... and that the monitor's write really can block for ever is a theorem of the interleaving model of the
+   session's write path (Model/Conc.v with the stalled transport): the HeartRequest is an ordinary write_frame;
+   queued on the writer mutex behind a write that is inside the stalled transport it stays queued under every
+   continuation of every schedule (and the close() the monitor would call stays queued just the same) *)
+Theorem C14_known_F4_request_queued_forever : forall progs buf pend sched0 h w k f sched,
+  let s := Conc.run (Conc.init progs buf pend) sched0 in
+  ConcStall.wedged s h -> ConcInv.pcof s w = Conc.PW2wait k f ->
+  ConcInv.pcof (Conc.run s sched) w = Conc.PW2wait k f.
+Proof.
+  intros progs buf pend sched0 h w k f sched s W P.
+  apply (ConcStall.wedged_writer_never_returns s h w k f sched); [apply ConcInv.run_inv; apply ConcInv.inv_init | exact W | exact P].
+Qed.
+Print Assumptions C14_known_F4_request_queued_forever.
 
 (* non-vacuity: I = 30 s, T = 10 s (timeout < interval); the peer answers after 9.999 s each time: the trace is
    time-ordered, satisfies peer_in_time, and stays open; when the peer falls silent after its answer at
